@@ -192,7 +192,10 @@ Definition pick_prefix (t : list (Z * string)) (power : Z) : option (Z * string)
   let i := bisect_left t power in
   if Nat.leb (length t) i then last t else t !! i.
 
-(** ** [infer_base_unit]: strip the prefix of every unit; exactly one reading is demanded *)
+(** ** [infer_base_unit]: strip the prefix of every unit.  Since the repair of F21 (3fd38de) the
+    first reading of a name is taken, as [get_name] does ([candidates[0]]: IndexError when the name
+    has no reading at all).  Before it exactly one reading was demanded
+    ([assert len(candidates) == 1]): [infer_step_assert], kept to exhibit the defect. *)
 Fixpoint dedup_first (l : list string) (seen : list string) : list string :=
   match l with
   | [] => []
@@ -200,12 +203,22 @@ Fixpoint dedup_first (l : list string) (seen : list string) : list string :=
   end.
 Definition infer_step (r : reg) (acc : list string * uc) (kv : string * Qc) : res (list string * uc) :=
   match parse_unit_name r kv.1 with
+  | (_, base) :: _ => Ok ((acc.1 ++ [base])%list, uc_add acc.2 base kv.2)
+  | [] => Err EIndex
+  end.
+Definition infer_step_assert (r : reg) (acc : list string * uc) (kv : string * Qc) : res (list string * uc) :=
+  match parse_unit_name r kv.1 with
   | [(_, base)] => Ok ((acc.1 ++ [base])%list, uc_add acc.2 base kv.2)
   | _ => Err EAssert
   end.
-Definition infer_base_unit (r : reg) (ord : list string) (a : uc) : res (list string * uc) :=
-  '(o, d) ←r foldM (infer_step r) (map (λ k, (k, exp_of a k)) (present a ord)) ([], ∅);
+Definition infer_base_unit_with (step : list string * uc → string * Qc → res (list string * uc))
+    (ord : list string) (a : uc) : res (list string * uc) :=
+  '(o, d) ←r foldM step (map (λ k, (k, exp_of a k)) (present a ord)) ([], ∅);
   Ok (present d (dedup_first o []), d).
+Definition infer_base_unit (r : reg) (ord : list string) (a : uc) : res (list string * uc) :=
+  infer_base_unit_with (infer_step r) ord a.
+Definition infer_base_unit_assert (r : reg) (ord : list string) (a : uc) : res (list string * uc) :=
+  infer_base_unit_with (infer_step_assert r) ord a.
 
 (** ** the exponent: floor(log10|m| / p / 3) * 3 for p > 0, ceil(...) * 3 for p < 0,
     computed exactly.  With p = ±a/b (a, b > 0): floor(b·log10|m| / (3a)) =
@@ -263,8 +276,10 @@ Definition qpow_int (b e : Qc) : res Qc :=
   if is_int e then match Qc_powZ b (Qnum (this e)) with Some x => Ok x | None => Err EZeroDiv end
   else Err EIrrational.          (* a float power: outside the exact model *)
 Definition qmax (a b : Qc) : Qc := if qlt a b then b else a.
-(** [find_simple]: as coded, the proportionality test raises the preferred exponent to the
-    POWER of the quantity's leading exponent ([p_exps_tail[i] ** s_exps_head]) *)
+(** [find_simple].  Since the repair of F96 (75b5cc1) the proportionality test is
+    [s_exps_tail[i] * p_exps_head == p_exps_tail[i] * s_exps_head] ([pow_defect = false]); before it
+    the preferred exponent was raised to the POWER of the quantity's leading exponent
+    ([p_exps_tail[i] ** s_exps_head], [pow_defect = true], kept to exhibit the defect) *)
 Definition str_le (a b : string) : Prop := String.leb a b = true.   (* code-point order of sorted() *)
 Global Instance str_le_dec a b : Decision (str_le a b) := decide (String.leb a b = true).
 Definition sorted_keys (d : uc) : list string := merge_sort str_le (keys d).
